@@ -48,6 +48,9 @@ def partition_for(pc, goal):
     return out or comps
 
 
+_ABSENT = object()
+
+
 class SymCtx:
     backend = 'sym'
 
@@ -72,7 +75,10 @@ class SymCtx:
         self.I.spec_env = self.ns       # spec helpers are visible in invariants evaluated inside function frames
         self.n_ensures = 0
         for parent, nm, old in reversed(modules.pop('<patched>', [])):      # c.patch of the previous path
-            parent.attrs[nm] = old
+            if old is _ABSENT:
+                parent.attrs.pop(nm, None)
+            else:
+                parent.attrs[nm] = old
 
     # ------------------------------------------------------------------ inputs
     def _reg(self, name, kind, payload, value):
@@ -80,12 +86,21 @@ class SymCtx:
         self.ns[name] = value
         return value
 
+    def _note_range(self, t, lo, hi):
+        # declared (assumed) range of an input, kept for ops.syn_bounds so that bit widths need no solver call
+        if lo is not None and hi is not None:
+            tb = getattr(self.path, 'term_bounds', None)
+            if tb is None:
+                tb = self.path.term_bounds = {}
+            tb[t.get_id()] = (t, lo, hi)
+
     def int(self, name, lo=None, hi=None):
         t = z3.Int(name)
         if lo is not None:
             self.path.assume(t >= lo)
         if hi is not None:
             self.path.assume(t <= hi)
+        self._note_range(t, lo, hi)
         return self._reg(name, 'int', t, SInt(t))
 
     def bool(self, name):
@@ -108,6 +123,7 @@ class SymCtx:
                 self.path.assume(t >= lo)
             if hi is not None:
                 self.path.assume(t <= hi)
+            self._note_range(t, lo, hi)
         return ts
 
     def bytes(self, name, n):
@@ -353,16 +369,17 @@ class SymCtx:
         recording stubs; the symbolic interpreter models those externals already"""
         self.I.load_module(modref)
 
-    def patch(self, ref, value):
+    def patch(self, ref, value, create=False):
         """(added for C20) replace the module / class attribute `ref` ('pkg.mod:Name' or 'pkg.mod:Class.attr') by
         `value` (an Ext stub, a list, a constant) for this path.  The interpreted modules are shared by
         the paths of a contract, so the original is put back when the next path starts."""
         modname, _, qual = ref.partition(':')
         parts = qual.split('.')
         parent = self.I.resolve(modname + ':' + '.'.join(parts[:-1]))
-        if not isinstance(parent, (ModuleVal, ClassVal)) or parts[-1] not in parent.attrs:
+        if not isinstance(parent, (ModuleVal, ClassVal)) or (parts[-1] not in parent.attrs and not create):
             raise EngineError('%s: nothing to patch' % ref)
-        self.I.modules.setdefault('<patched>', []).append((parent, parts[-1], parent.attrs[parts[-1]]))
+        # create=True: the attribute may be missing (optional dependency that is not installed, e.g. pyserial)
+        self.I.modules.setdefault('<patched>', []).append((parent, parts[-1], parent.attrs.get(parts[-1], _ABSENT)))
         parent.attrs[parts[-1]] = self._lift(value)
         self.I.note_assumption('%s is replaced by a stub of the contract' % ref)
         return parent.attrs[parts[-1]]
